@@ -143,13 +143,13 @@ def main(tier_):
                 # the procfs-relative openat2 calls (reopen, the d_path checks of the emulated backend, sysctl reads, procfs
                 # operations) under a persistent EAGAIN storm: whatever the library does about it, the call ends ("does not
                 # loop forever") -- with an error, or with the unfaulted result
-                for n in ((5000,) if quick else (1, 3, 17, 5000)):
+                for n in ((1000000000,) if quick else (1, 3, 17, 5000, 1000000000)):      # 10^9 = for ever (the run has a time limit)
                     c = copy.deepcopy(bc)
                     c["id"] = "eagainproc|%s|%s|%s|c%d|n%d" % (bc["meta"]["scenario"], bc["meta"]["feat"], "cold" if bc.get("cold") else "warm", j, n)
                     c["raw"] = False
                     c["calls"] = bc["calls"][:j + 1]
                     c["faults"] = [dict(call=j, nr="openat2", errno=11, count=n, cls="proc")]
-                    c["timeout"] = 20
+                    c["timeout"] = 12
                     c["meta"] = dict(bc["meta"], kind="eagainproc", call=j, site="openat2[proc]", errno=11, n=n, base=bc["id"])
                     cases.append(c)
             # descriptor exhaustion from the first syscall of every call of a fresh process (first-use initialisation of the
